@@ -102,20 +102,45 @@ HARNESSES = {
         "bounds": "attribute values of 0..=26 symbolic bytes, flags symbolic, four-octet-AS mode; unwind 28: accepted only if the length obeys the attribute's RFC rule, stored with the code and flags received, no panic",
         "timeout": 600,
     },
-    "c05_attr_decode_as_path": {
+    "c05_attr_decode_as_path_len0": {
         "pkg": "rustybgp-packet", "target": "bgp::Attribute::decode (AS_PATH, four-octet mode)", "complete": False,
-        "bounds": "attribute values of 0..=14 symbolic bytes, flags symbolic; unwind 16: accepted only if the value is whole segments of defined types, stored as received with the code and flags received, no panic",
-        "timeout": 900,
+        "bounds": "attribute value of exactly 0 symbolic bytes, flags symbolic; unwind 16: accepted only if the value is whole segments of defined types, stored as received with the code and flags received, consumed whole, no panic",
+        "timeout": 300,
     },
-    "c05_attr_decode_as_path_two_octet": {
-        "pkg": "rustybgp-packet", "target": "bgp::Attribute::decode (AS_PATH, two-octet mode)", "complete": False,
-        "bounds": "attribute values of 0..=14 symbolic bytes, flags symbolic; unwind 16: accepted only if the value is whole two-octet segments of defined types; the stored four-octet form is whole segments again; no panic",
-        "timeout": 900,
+    "c05_attr_decode_as_path_len6": {
+        "pkg": "rustybgp-packet", "target": "bgp::Attribute::decode (AS_PATH, four-octet mode)", "complete": False,
+        "bounds": "attribute value of exactly 6 symbolic bytes, flags symbolic; unwind 16: accepted only if the value is whole segments of defined types, stored as received with the code and flags received, consumed whole, no panic",
+        "timeout": 300,
     },
-    "c05_attr_decode_as4_path": {
+    "c05_attr_decode_as_path_len8": {
+        "pkg": "rustybgp-packet", "target": "bgp::Attribute::decode (AS_PATH, four-octet mode)", "complete": False,
+        "bounds": "attribute value of exactly 8 symbolic bytes, flags symbolic; unwind 16: accepted only if the value is whole segments of defined types, stored as received with the code and flags received, consumed whole, no panic",
+        "timeout": 300,
+    },
+    "c05_attr_decode_as_path_len12": {
+        "pkg": "rustybgp-packet", "target": "bgp::Attribute::decode (AS_PATH, four-octet mode)", "complete": False,
+        "bounds": "attribute value of exactly 12 symbolic bytes, flags symbolic; unwind 16: accepted only if the value is whole segments of defined types, stored as received with the code and flags received, consumed whole, no panic",
+        "timeout": 300,
+    },
+    "c05_attr_decode_as_path_len7": {
+        "pkg": "rustybgp-packet", "target": "bgp::Attribute::decode (AS_PATH, four-octet mode)", "complete": False,
+        "bounds": "attribute value of exactly 7 symbolic bytes (whole segments plus a stray octet at best): always rejected, no panic",
+        "timeout": 300,
+    },
+    "c05_attr_decode_as4_path_len6": {
         "pkg": "rustybgp-packet", "target": "bgp::Attribute::decode (AS4_PATH)", "complete": False,
-        "bounds": "attribute values of 0..=14 symbolic bytes, flags symbolic; unwind 16: accepted only if the value is at least one whole non-empty segment of a defined type, no panic",
-        "timeout": 900,
+        "bounds": "attribute value of exactly 6 symbolic bytes, flags symbolic; unwind 16: accepted only if the value is at least one whole non-empty segment of a defined type, stored as received, consumed whole, no panic",
+        "timeout": 300,
+    },
+    "c05_attr_decode_as4_path_len12": {
+        "pkg": "rustybgp-packet", "target": "bgp::Attribute::decode (AS4_PATH)", "complete": False,
+        "bounds": "attribute value of exactly 12 symbolic bytes, flags symbolic; unwind 16: accepted only if the value is at least one whole non-empty segment of a defined type, stored as received, consumed whole, no panic",
+        "timeout": 300,
+    },
+    "c05_attr_decode_as4_path_len7": {
+        "pkg": "rustybgp-packet", "target": "bgp::Attribute::decode (AS4_PATH)", "complete": False,
+        "bounds": "attribute value of exactly 7 symbolic bytes: always rejected, no panic",
+        "timeout": 300,
     },
     # ---------------------------------------------------------------- C06
     "c06_id_alloc_unique": {
